@@ -1,6 +1,6 @@
 (** Dispatch table used by the extracted runner: property number -> model runner / monitor. *)
 From RRE Require Import Base.Sx.
-From RRE Require Model.Watermark Model.Tms Model.ProofGraph Model.Undo Model.Module Model.Window Model.StreamAlpha Model.Join Model.KB Model.Index Model.State Model.ReteAgenda Model.EngineConc Model.Parallel Model.Incremental Model.ExprShape Model.BwExpr Model.BwSmall Model.ForwardSpec Model.Grl Model.GrlSplit Model.Backward.
+From RRE Require Model.Watermark Model.Tms Model.ProofGraph Model.Undo Model.Module Model.Window Model.StreamAlpha Model.Join Model.JoinMgr Model.KB Model.Index Model.State Model.ReteAgenda Model.EngineConc Model.Parallel Model.Incremental Model.ExprShape Model.BwExpr Model.BwSmall Model.ForwardSpec Model.Grl Model.GrlSplit Model.Backward.
 Open Scope Z_scope.
 
 Definition run_by_id (id : Z) (c : sx) : sx :=
@@ -29,7 +29,7 @@ Definition run_by_id (id : Z) (c : sx) : sx :=
   | 10 => match c with L [A 1; bc] => Backward.run_sx bc | _ => Undo.run_sx c end
   | 12 => match c with L (A 3 :: _) => StreamAlpha.run_sx c | _ => Window.run_sx c end
   | 13 => Watermark.run_sx c
-  | 14 => Join.run_sx c
+  | 14 => match c with L [A 9; L mops] => JoinMgr.run_mgr_sx mops | _ => Join.run_sx c end
   | 15 => KB.run_sx c
   | 16 => Index.run_sx c
   | 17 => ProofGraph.run_sx c
@@ -62,7 +62,7 @@ Definition ok_by_id (id : Z) (c o : sx) : Z :=
   | 10 => match c with L [A 1; bc] => b2z (Backward.ok_sx_c10 bc o) | _ => b2z (Undo.ok_sx c o) end
   | 12 => match c with L (A 3 :: _) => b2z (StreamAlpha.ok_sx c o) | _ => b2z (Window.ok_sx c o) end
   | 13 => b2z (Watermark.ok_sx c o)
-  | 14 => b2z (Join.ok_sx c o)
+  | 14 => match c with L [A 9; L mops] => b2z (sx_eqb (JoinMgr.run_mgr_sx mops) o) | _ => b2z (Join.ok_sx c o) end
   | 15 => b2z (KB.ok_sx c o)
   | 16 => b2z (Index.ok_sx c o)
   | 17 => b2z (ProofGraph.ok_sx c o)
